@@ -40,11 +40,11 @@ Lemma ex_hyps :
   name_ok ex_name = true /\ desc_ok (Some ex_desc) = true /\ attr_ok ex_attrs = true
   /\ wiki_text_ok (format_tag_attributes no_dis ex_attrs) = true
   /\ write_tag_line no_dis ex_name 1 ex_attrs (Some ex_desc) = Some ex_line
-  /\ row_free_of_reserved ex_line = true.
+  /\ row_free_of_reserved false ex_name ex_line = true /\ row_free_of_reserved true ex_name ex_line = true.
 Proof. vm_compute. repeat split; reflexivity. Qed.
 
-Lemma ex_read : read_tag_line ex_line = Ok (Some (mkParsed false 1 ex_name ex_attrs (Some ex_desc))).
-Proof. vm_compute. reflexivity. Qed.
+Lemma ex_read : forall fixed, read_tag_line fixed ex_line = Ok (Some (mkParsed false 1 ex_name ex_attrs (Some ex_desc))).
+Proof. intros [|]; vm_compute; reflexivity. Qed.
 
 Lemma ex_attr : format_tag_attributes no_dis ex_attrs = ex_attr_string
                 /\ parse_attribute_string ex_attr_string = Ok ex_attrs.
@@ -78,26 +78,45 @@ Definition line_of (d : str) : str :=
 
 Lemma desc_outer_blank_lost :
   schema_text_ok d_lead = true /\
-  read_tag_line (line_of d_lead) = Ok (Some (mkParsed false 1 n_zork [] (Some d_lead_stripped))).
+  read_tag_line false (line_of d_lead) = Ok (Some (mkParsed false 1 n_zork [] (Some d_lead_stripped))).
 Proof. vm_compute. split; reflexivity. Qed.
 
 Lemma desc_extend_here_refused :
-  schema_text_ok d_extend = true /\ read_tag_line (line_of d_extend) = Exn HedFileError.
+  schema_text_ok d_extend = true /\ read_tag_line false (line_of d_extend) = Exn HedFileError.
 Proof. vm_compute. split; reflexivity. Qed.
 
 Lemma desc_nowiki_removed :
   schema_text_ok d_nowiki = true /\
-  read_tag_line (line_of d_nowiki) = Ok (Some (mkParsed false 1 n_zork [] (Some d_nowiki_gone))).
+  read_tag_line false (line_of d_nowiki) = Ok (Some (mkParsed false 1 n_zork [] (Some d_nowiki_gone))).
 Proof. vm_compute. split; reflexivity. Qed.
 
 (* the full-strength statement over the schema's own text class is false of the faithful model *)
 Lemma wiki_line_roundtrip_schema_class_refuted :
   exists d, schema_text_ok d = true /\ d <> [] /\
-            read_tag_line (line_of d) <> Ok (Some (mkParsed false 1 n_zork [] (Some d))).
+            read_tag_line false (line_of d) <> Ok (Some (mkParsed false 1 n_zork [] (Some d))).
 Proof.
   exists d_lead. split; [vm_compute; reflexivity|]. split; [discriminate|].
   destruct desc_outer_blank_lost as [_ H]. rewrite H. intro E. inversion E.
 Qed.
+
+(* ---- the same witnesses on the repaired code ---- *)
+(* F1: the XML reader now delivers the stripped description, which round-trips *)
+Lemma desc_outer_blank_after_fix :
+  xml_read_desc true d_lead = Some d_lead_stripped /\
+  read_tag_line true (match write_tag_line no_dis n_zork 1 [] (xml_read_desc true d_lead) with Some l => l | None => [] end)
+  = Ok (Some (mkParsed false 1 n_zork [] (xml_read_desc true d_lead))).
+Proof. vm_compute. split; reflexivity. Qed.
+
+(* F3: 'extend here' inside a description is read back unchanged *)
+Lemma desc_extend_here_after_fix :
+  read_tag_line true (line_of d_extend) = Ok (Some (mkParsed false 1 n_zork [] (Some d_extend))).
+Proof. vm_compute. reflexivity. Qed.
+
+(* what stays a limit after the repairs: nowiki words inside a description are still deleted *)
+Lemma desc_nowiki_still_removed :
+  schema_text_ok d_nowiki = true /\
+  read_tag_line true (line_of d_nowiki) = Ok (Some (mkParsed false 1 n_zork [] (Some d_nowiki_gone))).
+Proof. vm_compute. split; reflexivity. Qed.
 
 (* ---- traversal: a small partnered library ---- *)
 Definition t_base := mkTag [1] false None [5].
